@@ -12,12 +12,17 @@ B64 = 'ABCDEFGHIJKLMNOPQRSTUVWXYZabcdefghijklmnopqrstuvwxyz0123456789+/='
 
 
 class CountingPickle:
-    def __init__(self, real):
+    def __init__(self, real, forged=False):
         self.real = real
         self.loads_calls = 0
+        self.forged = forged
 
     def loads(self, *a, **kw):
         self.loads_calls += 1
+        if self.forged:
+            # bytes an attacker edited have reached the unpickler: that IS the violation (counted above); they are not
+            # actually unpickled here (it would be code execution / unbounded allocation inside the checking process)
+            return ('forged-payload-not-unpickled', None)
         return self.real.loads(*a, **kw)
 
     def __getattr__(self, n):
@@ -74,13 +79,13 @@ def set_and_capture(app, name, value, secret=None, via='response'):
     return raw_val, status
 
 
-def read_back(app, name, raw_val, secret=None, rewrite=None):
+def read_back(app, name, raw_val, secret=None, rewrite=None, forged=False):
     """Send the stored cookie-value back; returns (value seen by get_cookie, loads calls).  With `rewrite` the handler first
     reads the cookie, then replaces the request's Cookie header by `rewrite` and reads again (the second answer is returned)."""
     import ombott.common_helpers as ch
     env = base_environ(PATH_INFO='/get', HTTP_COOKIE=(name.encode('latin1') + b'=' + raw_val).decode('latin1'))
     app._verif = (name, None, secret, rewrite)
-    cp = CountingPickle(ch.pickle.real if isinstance(ch.pickle, CountingPickle) else ch.pickle)
+    cp = CountingPickle(ch.pickle.real if isinstance(ch.pickle, CountingPickle) else ch.pickle, forged=forged)
     ch.pickle = cp
     try:
         status, line, headers, body, n = call_app(app, env)
@@ -186,7 +191,7 @@ def run(chk):
     def attack(cls, sec, name, edited, pos=-1, orig=None):
         if edited == orig:
             return
-        res, loads = read_back(app, name, quote_for_header(edited), secret=sec)
+        res, loads = read_back(app, name, quote_for_header(edited), secret=sec, forged=cls not in ('other-name', 'hmac-equivalent-secret', 'other-secret', 'other-long-secret'))
         present = isinstance(res, dict) and res['present']
         recs.append({'kind': 'signed', 'cls': cls, 'genuine': False, 'serverSigned': cls == 'other-name', 'present': present, 'valueOk': False, 'loads': loads, 'pos': pos,
                      'edited': edited[:80], 'name': name})
